@@ -13,7 +13,8 @@ open UVerif UVerif.Limbs
 
 variable {w n : Nat}
 
-/-- blockbinary's `+=` is integer's `+=` whenever the carry-drop line of integer is not reached -/
+/-- blockbinary's `+=` is integer's `+=` outside integer's `uint64_t` multi-block branch (which blockbinary's static_assert
+    `bitsInBlock < 64 || uniblock64` excludes: that is what the hypothesis `w ≠ 64 ∨ nrBlocks w n = 1` of this file stands for) -/
 theorem add_eq_integer (h64 : w ≠ 64 ∨ nrBlocks w n = 1) (a b : List Nat) : BB.add w n a b = Integer.add w n a b := by
   unfold BB.add Integer.add
   by_cases hk : nrBlocks w n = 1
@@ -28,7 +29,7 @@ theorem add_eq_integer (h64 : w ≠ 64 ∨ nrBlocks w n = 1) (a b : List Nat) : 
 theorem add_spec (hw : 0 < w) (hn : 0 < n) (h64 : w ≠ 64 ∨ nrBlocks w n = 1) {a b : List Nat}
     (ha : Shape w n a) (hb : Shape w n b) :
     Canon w n (BB.add w n a b) ∧ toNat w (BB.add w n a b) = (toNat w a + toNat w b) % 2 ^ n := by
-  rw [add_eq_integer h64]; exact Integer.add_spec hw hn h64 ha hb
+  rw [add_eq_integer h64]; exact Integer.add_spec hw hn ha hb
 
 theorem flip_spec (hw : 0 < w) (hn : 0 < n) {a : List Nat} (ha : Shape w n a) :
     Canon w n (BB.flip w n a) ∧ toNat w (BB.flip w n a) = 2 ^ n - 1 - toNat w a % 2 ^ n :=
@@ -444,7 +445,7 @@ theorem roundingMode_spec (hw : 0 < w) {a : List Nat} (ha : Wf w a) {t : Nat} (h
              · exfalso; omega
              · exact h)
 
-/-- after the repair 433c6a0 blockbinary's `<<=` is integer's `<<=` (both exits mask the MSU) -/
+/-- after the repair fd17b6d blockbinary's `<<=` is integer's `<<=` (both exits mask the MSU) -/
 theorem shlPos_eq_integer (a : List Nat) (s : Nat) : shlPos w n a s = Integer.shlPos w n a s := rfl
 
 /-- `operator<<=` of blockbinary with a positive count: canonical result, times 2^s modulo 2^n -/
@@ -687,8 +688,7 @@ theorem urmul2_spec (hw : 0 < w) (hn : 0 < n) (h64 : w ≠ 64 ∨ nrBlocks w (2 
       apply hfinal _ cr
       rw [vr, hprod]
 
-/-- below nbits blockbinary's `>>=` is integer's `>>=`; from nbits on blockbinary still returns 0 for every value
-    (not repaired) while integer sign-fills -/
+/-- below nbits blockbinary's `>>=` is integer's `>>=` (from nbits on both return 0 for every value: `setzero()`) -/
 theorem shrPos_eq_integer (hw : 0 < w) (hn : 0 < n) {a : List Nat} (ha : Wf w a) {s : Nat} (hs : s < n) :
     shrPos w n a s = Integer.shrPos w n a s := by
   unfold shrPos Integer.shrPos
@@ -766,7 +766,7 @@ theorem round_bridge {M C r : Nat} {p : Int} (hC : (C : Int) ≡ p [ZMOD M2 M]) 
 theorem sub_eq_integer (hw : 0 < w) (hn : 0 < n) (h64 : w ≠ 64 ∨ nrBlocks w n = 1) {a b : List Nat}
     (ha : Shape w n a) (hb : Shape w n b) : BB.sub w n a b = Integer.sub w n a b := by
   obtain ⟨c1, v1⟩ := BB.sub_spec hw hn h64 ha hb
-  obtain ⟨c2, v2⟩ := Integer.sub_spec hw hn h64 ha hb
+  obtain ⟨c2, v2⟩ := Integer.sub_spec hw hn ha hb
   exact toNat_inj c1.2.1 c2.2.1 (by rw [c1.1, c2.1]) (by rw [v1, v2])
 
 theorem shr_one_eq_integer (hw : 0 < w) (hn : 1 < n) {a : List Nat} (ha : Wf w a) :
@@ -783,7 +783,7 @@ theorem ldStep_eq (hw : 0 < w) (hn : 0 < n) (h64N : w ≠ 64 ∨ nrBlocks w (n +
   unfold ldStep Integer.idivStep
   simp only
   have hle : BB.le w (n + 1) sb acc = !(Integer.lt w (n + 1) acc sb) := by
-    rw [BB.le_spec hw hN h64N hsb hacc, Integer.lt_spec hw hN h64N hacc hsb]
+    rw [BB.le_spec hw hN h64N hsb hacc, Integer.lt_spec hw hN hacc hsb]
     unfold toInt
     generalize toSigned (n + 1) (toNat w sb) = s
     generalize toSigned (n + 1) (toNat w acc) = a
@@ -804,14 +804,14 @@ theorem ld_loop (hw : 0 < w) (hn : 0 < n) (h64N : w ≠ 64 ∨ nrBlocks w (n + 1
   induction i with
   | zero =>
     intro acc sb q hacc hsb hq hi hsbv haccv hsbl hdec hqz
-    obtain ⟨acc', sb', q', e, c1, _, c3, _, c5, c6, _⟩ := Integer.idivStep_spec hw hn h64N hB hA 0 acc sb q hacc hsb hq hi hsbv haccv hsbl hdec hqz
+    obtain ⟨acc', sb', q', e, c1, _, c3, _, c5, c6, _⟩ := Integer.idivStep_spec hw hn hB hA 0 acc sb q hacc hsb hq hi hsbv haccv hsbl hdec hqz
     refine ⟨acc', sb', q', ?_, c1, c3, by simpa using c5, c6⟩
     simp only [List.range_succ, List.range_zero, List.nil_append, List.reverse_cons, List.reverse_nil, List.foldl_cons, List.foldl_nil]
     rw [ldStep_eq hw hn h64N q 0 hacc hsb]
     exact e
   | succ i ih =>
     intro acc sb q hacc hsb hq hi hsbv haccv hsbl hdec hqz
-    obtain ⟨acc', sb', q', e, c1, c2, c3, c4, c5, c6, c7⟩ := Integer.idivStep_spec hw hn h64N hB hA (i + 1) acc sb q hacc hsb hq hi hsbv haccv hsbl hdec hqz
+    obtain ⟨acc', sb', q', e, c1, c2, c3, c4, c5, c6, c7⟩ := Integer.idivStep_spec hw hn hB hA (i + 1) acc sb q hacc hsb hq hi hsbv haccv hsbl hdec hqz
     have hhalf : B * 2 ^ (i + 1) / 2 = B * 2 ^ i := by
       rw [Nat.pow_succ, ← Nat.mul_assoc, Nat.mul_div_cancel _ (by omega : 0 < 2)]
     rw [hhalf] at c4
@@ -1010,13 +1010,13 @@ theorem longdivision_spec (hw : 0 < w) (hn : 0 < n) (h64 : w ≠ 64 ∨ nrBlocks
         rw [hrv, Integer.toSigned_small hN (by rw [Nat.add_sub_cancel]; exact hRlt), hRv]
     exact ⟨hqfin.1, hrfin.1, hqfin.2, hrfin.2⟩
 
-/-- `operator/=` / `operator%=` of blockbinary: native division of the exact-fit single block (which traps on
-    most-negative / −1 at 32 and 64 bits) or `longdivision` -/
+/-- `operator/=` / `operator%=` of blockbinary: native division of the exact-fit single block (divisor −1 negated in the block
+    type, so most negative / −1 wraps: `Integer.nativeDiv_spec`) or `longdivision` -/
 theorem divrem_spec (hw : 0 < w) (hn : 0 < n) (h64 : w ≠ 64 ∨ nrBlocks w n = 1) (h64N : n ≠ w → (w ≠ 64 ∨ nrBlocks w (n + 1) = 1))
-    {a b : List Nat} (ha : Canon w n a) (hb : Canon w n b) (hb0 : toNat w b ≠ 0)
-    (hnt : ¬ (n = w ∧ 32 ≤ w ∧ toInt w n a = -((2 ^ (n - 1) : Nat) : Int) ∧ toInt w n b = -1)) :
-    ∃ q r, divrem w n a b false = some q ∧ divrem w n a b true = some r ∧ Canon w n q ∧ Canon w n r ∧
-      toNat w q = ofSigned n (Int.tdiv (toInt w n a) (toInt w n b)) ∧ toNat w r = ofSigned n (Int.tmod (toInt w n a) (toInt w n b)) := by
+    {a b : List Nat} (ha : Canon w n a) (hb : Canon w n b) (hb0 : toNat w b ≠ 0) :
+    Canon w n (divrem w n a b false) ∧ Canon w n (divrem w n a b true) ∧
+      toNat w (divrem w n a b false) = ofSigned n (Int.tdiv (toInt w n a) (toInt w n b)) ∧
+      toNat w (divrem w n a b true) = ofSigned n (Int.tmod (toInt w n a) (toInt w n b)) := by
   have hz : iszero b = false := by
     by_contra h
     exact hb0 (toNat_eq_zero_of_iszero (by simpa using h))
@@ -1029,16 +1029,13 @@ theorem divrem_spec (hw : 0 < w) (hn : 0 < n) (h64 : w ≠ 64 ∨ nrBlocks w n =
     obtain ⟨eb, vb⟩ := Integer.single_of_eq hb hw
     have hk : nrBlocks n n = 1 := by unfold nrBlocks; rw [Nat.div_eq_of_lt (by omega)]
     have hmask : msuMask n n = 2 ^ n - 1 := by unfold msuMask surplus; rw [hk]; simp
+    have hxlt : blk a 0 < 2 ^ n := by rw [← va]; exact ha.2.2
+    have hylt : blk b 0 < 2 ^ n := by rw [← vb]; exact hb.2.2
     have hnone : ∀ rem, nativeDiv n (blk a 0) (blk b 0) rem
-        = some (ofSigned n (if rem then Int.tmod (toInt n n a) (toInt n n b) else Int.tdiv (toInt n n a) (toInt n n b))) := by
+        = ofSigned n (if rem then Int.tmod (toInt n n a) (toInt n n b) else Int.tdiv (toInt n n a) (toInt n n b)) := by
       intro rem
-      unfold nativeDiv toInt
-      simp only
-      rw [← va, ← vb]
-      rw [if_neg]
-      intro hc
-      simp only [Bool.and_eq_true, decide_eq_true_eq, beq_iff_eq] at hc
-      exact hnt ⟨rfl, hc.1.1, hc.1.2, hc.2⟩
+      unfold toInt
+      rw [Integer.nativeDiv_spec hw hxlt hylt rem, va, vb]
     have hfin : ∀ z : Int, Canon n n [ofSigned n z &&& msuMask n n] ∧ toNat n [ofSigned n z &&& msuMask n n] = ofSigned n z := by
       intro z
       have hlt := ofSigned_lt n z
@@ -1047,12 +1044,12 @@ theorem divrem_spec (hw : 0 < w) (hn : 0 < n) (h64 : w ≠ 64 ∨ nrBlocks w n =
       rw [e]
       refine ⟨⟨by simp [hk], Wf.cons hlt (Wf.nil n), by simp [toNat]; exact hlt⟩, by simp [toNat]⟩
     rw [hnone false, hnone true]
-    refine ⟨_, _, rfl, rfl, (hfin _).1, (hfin _).1, ?_, ?_⟩
+    refine ⟨(hfin _).1, (hfin _).1, ?_, ?_⟩
     · rw [(hfin _).2]; rfl
     · rw [(hfin _).2]; rfl
   · rw [if_neg hnw, if_neg hnw]
     obtain ⟨c1, c2, v1, v2⟩ := longdivision_spec hw hn h64 (h64N hnw) ha hb hb0
-    exact ⟨_, _, rfl, rfl, c1, c2, v1, v2⟩
+    exact ⟨c1, c2, v1, v2⟩
 
 /-- `if (x.isneg()) x.twosComplement()`: the magnitude, when it is representable -/
 theorem abs_in_place (hw : 0 < w) (hn : 0 < n) (h64 : w ≠ 64 ∨ nrBlocks w n = 1) {c : List Nat} (hc : Canon w n c)
